@@ -176,6 +176,22 @@ func (P *Prog) FnOpt(pkg, recv, name string) *ssa.Function {
 func isAsmStub(f *ssa.Function) bool { return f.Blocks == nil && f.Synthetic == "" }
 
 // Anon returns the i-th (0-based) anonymous function of f.
+// ApplierOnEvict returns the closure of Cache.processItems that forwards to c.onEvict (the
+// applier's eviction wrapper), identified by what it does, not by its position among the closures.
+func (P *Prog) ApplierOnEvict() *ssa.Function {
+	pi := P.Fn("ristretto", "Cache", "processItems")
+	for _, a := range pi.AnonFuncs {
+		tb := newTB(a)
+		for _, ci := range allCalls(a) {
+			cc := ci.Common()
+			if !cc.IsInvoke() && calleeName(cc) == "dyn" && Match("fld[onEvict](_)", tb.T(cc.Value), nil) {
+				return a
+			}
+		}
+	}
+	panic(anchorMissing{"the closure of Cache.processItems that forwards to c.onEvict"})
+}
+
 func (P *Prog) Anon(f *ssa.Function, i int) *ssa.Function {
 	if i >= len(f.AnonFuncs) {
 		panic(anchorMissing{fmt.Sprintf("%s$%d", fname(f), i+1)})
